@@ -2,6 +2,8 @@
 
 package node
 
+import "github.com/smartcontractkit/chainlink-automation/tools/simulator/simulate/loader"
+
 // Test-only exports for the /verif harness (compiled only with -tags verif):
 // the unexported summary-statistics helpers used by ReportResults.
 
@@ -16,3 +18,7 @@ func VerifFindLowestAndOutliers(lowerFence float64, set []int) (int, int) {
 func VerifFindHighestAndOutliers(upperFence float64, set []int) (int, int) {
 	return findHighestAndOutliers(upperFence, set)
 }
+
+// VerifTransmitter returns the group's transmit loader so that a test can
+// submit reports the way a node's contract transmitter does.
+func (g *Group) VerifTransmitter() *loader.OCR3TransmitLoader { return g.transmitter }
